@@ -87,6 +87,8 @@ impl<'a, R: Read> Lexer<Scanner<'a, R>> {
         #[cfg(feature = "verif-hooks")]
         crate::haystack::verif_hooks::fuel_tick();
         while !self.scanner.is_eof {
+            #[cfg(feature = "verif-hooks")]
+            crate::haystack::verif_hooks::fuel_tick();
             match self.scanner.cur {
                 // White spaces
                 b'\n' | b'\r' | b'\t' | b' ' => {
